@@ -79,11 +79,11 @@ func decText(t *rapid.T, emax int) string {
 		}
 	case 1:
 		if len(s) > 1 {
-			out = fmt.Sprintf("%s.%se%d", s[:1], s[1:], exp+len(s)-1)
+			out = fmt.Sprintf("%s.%s%s", s[:1], s[1:], expMarker(t, exp+len(s)-1))
 		}
 	}
 	if out == "" {
-		out = fmt.Sprintf("%se%d", s, exp)
+		out = s + expMarker(t, exp)
 	}
 	if rapid.IntRange(0, 9).Draw(t, "zero") == 0 {
 		out = gen.Pick(t, "zerotext", []string{"0", "0.0", "0e10", "0.000", "-0"})
@@ -95,7 +95,25 @@ func decText(t *rapid.T, emax int) string {
 	return out
 }
 
-var detourTexts = []string{"0.1", "0.2", "0.3", "9007199254740993", "9007199254740992", "9223372036854775808", "9223372036854775807", "10000000000000000000001", "1", "3", "7", "0.7", "1.1", "2.2", "3.3", "100", "1e22", "0.000001", "123456789.123456789"}
+// expMarker spells an exponent part: e / E, optional + sign, optional leading zeros.
+func expMarker(t *rapid.T, exp int) string {
+	m := gen.Pick(t, "expmarker", []string{"e", "E"})
+	sign := ""
+	if exp >= 0 && rapid.IntRange(0, 2).Draw(t, "expplus") == 0 {
+		sign = "+"
+	}
+	if exp < 0 {
+		sign = "-"
+		exp = -exp
+	}
+	zeros := ""
+	if rapid.IntRange(0, 5).Draw(t, "expzeros") == 0 {
+		zeros = "0"
+	}
+	return fmt.Sprintf("%s%s%s%d", m, sign, zeros, exp)
+}
+
+var detourTexts = []string{"0.1", "0.2", "0.3", "9007199254740993", "9007199254740992", "9223372036854775808", "9223372036854775807", "10000000000000000000001", "1", "3", "7", "0.7", "1.1", "2.2", "3.3", "100", "1e22", "0.000001", "123456789.123456789", "25E-1", "1999E-3", "5E-1", "15E-1", "1E0", "1E+2", "12E-1", "-25E-1", "1.5E0", "0E0", "1e-0", "25e-01"}
 
 // log10Floor returns floor(log10(|x|)) for x != 0.
 func log10Floor(x *big.Rat) int {
